@@ -45,7 +45,7 @@ def rmMainLoop (d : Desc) (tag subj : String) : Nat → Bool → List Desc → L
     | some e =>
       if d.dig ≠ "" ∧ e.dig = d.dig then
         if tag ≠ "" then
-          if found ∧ (e.ann.isNil ∨ e.ann.tag = tag) then
+          if found ∧ (e.ann.len = 0 ∨ e.ann.tag = tag) then
             rmMainLoop d tag subj mi true (swapRemove l mi)
           else if ¬ e.ann.isNil ∧ e.ann.tag = tag then
             rmMainLoop d tag subj mi true (l.set mi { e with ann := { e.ann with tag := "" } })
@@ -91,10 +91,23 @@ def moveChildren : List Desc → Index → Index
   | cd :: cs, ix =>
     match findIdx (fun m => m.dig = cd.dig ∧ m.ann.len = 0) ix.manifests 0 with
     | some mi => moveChildren cs { manifests := swapRemove ix.manifests mi, children := ix.children ++ [cd] }
-    | none => moveChildren cs ix
+    | none =>
+      -- children that were never top-level entries are recorded too (unless the digest is known already)
+      if ix.manifests.any (·.dig = cd.dig) ∨ ix.children.any (·.dig = cd.dig) then moveChildren cs ix
+      else moveChildren cs { ix with children := ix.children ++ [cd] }
 
 def compatible (md : Desc) (tag subj : String) : Bool :=
-  md.ann.isNil ∨ ((tag = "" ∨ md.ann.tag = "" ∨ md.ann.tag = tag) ∧ (subj = "" ∨ md.ann.subj = "" ∨ md.ann.subj = subj))
+  md.ann.isNil ∨ ((md.ann.tag = "" ∨ md.ann.tag = tag) ∧ (md.ann.subj = "" ∨ md.ann.subj = subj))
+
+/-- last part of AddDesc for a descriptor with a tag or referrer annotation: an entry of the digest that already
+    carries the same tag and referrer is overwritten, else the first compatible entry, else `d` is appended -/
+def placeDesc (l : List Desc) (d : Desc) (tag subj : String) : List Desc :=
+  match findIdx (fun md => md.dig = d.dig ∧ ¬ md.ann.isNil ∧ md.ann.tag = tag ∧ md.ann.subj = subj) l 0 with
+  | some mi => l.set mi d
+  | none =>
+    match findIdx (fun md => md.dig = d.dig ∧ compatible md tag subj) l 0 with
+    | some mi => l.set mi d
+    | none => l ++ [d]
 
 def addDesc (ix : Index) (d : Desc) (children : List Desc := []) : Index :=
   let tag := if d.ann.isNil then "" else d.ann.tag
@@ -107,14 +120,12 @@ def addDesc (ix : Index) (d : Desc) (children : List Desc := []) : Index :=
   if tag = "" ∧ subj = "" then
     if ix3.manifests.any (·.dig = d.dig) then ix3 else { ix3 with manifests := ix3.manifests ++ [d] }
   else
-    match findIdx (fun md => md.dig = d.dig ∧ compatible md tag subj) ix3.manifests 0 with
-    | some mi => { ix3 with manifests := ix3.manifests.set mi d }
-    | none => { ix3 with manifests := ix3.manifests ++ [d] }
+    { ix3 with manifests := placeDesc ix3.manifests d tag subj }
 
 def getDescTag (ix : Index) (t : String) : Option Desc :=
   if ix.manifests.isEmpty then none else ix.manifests.find? (fun d => ¬ d.ann.isNil ∧ d.ann.tag = t)
 def getDescDig (ix : Index) (g : String) : Option Desc :=
-  if ix.manifests.isEmpty then none else
+  if ix.manifests.isEmpty ∧ ix.children.isEmpty then none else
   match ix.manifests.find? (·.dig = g) with
   | some d => some { mt := d.mt, dig := d.dig, size := d.size }
   | none => (ix.children.find? (·.dig = g)).map fun d => { mt := d.mt, dig := d.dig, size := d.size }
